@@ -1,6 +1,7 @@
 import Zc.Proofs.Sched
 import Zc.Proofs.Sched2
 import Zc.Proofs.SchedRefreshed
+import Zc.GenFacts.FnSched
 /-! # C10 — the browser keeps learned services alive: refresh queries, rate limit, liveness
 
 Model: `Zc.Sched` (`lean/Zc/Model/Sched.lean`), the `QueryScheduler` of `_services/browser.py` **after**
@@ -767,5 +768,73 @@ example : (match exec2 (browserCfg ["_x._tcp.local."] 10000 none) {} 0
     | .ok r => (r.2.map (·.t), r.1.dict.length, r.1.heap.length)
     | .error _ => ([], 0, 0)) = ([50, 1050, 5050, 14050, 960000], 2, 2) := by decide
 
+
+/-! ## Tie: the source of `QueryScheduler` / `_ScheduledPTRQuery`, translated statement by statement on every run
+
+`Zc.GenFn.Sched` is regenerated from the method *bodies* of `_services/browser.py` (`tools/gen_fn.py`): `_ScheduledPTRQuery` objects
+live in a store and the heap and the per-alias dict hold their ids (the representation of `Sched2`), `heapq` is the ascending-list
+abstraction, timers and `async_send_ready_queries` are returned effects.  `GenFacts/FnSched.lean` proves the model's steps equal to
+the translated bodies for: the five comparison methods, `start`, `stop`, `_arm_ready_types`, `_rearm_if_earlier`,
+`_process_startup_queries`, constructor + `_schedule_ptr_query` (`schedule2`), `cancel_ptr_refresh` (`cancel2`),
+`reschedule_ptr_first_refresh` (`reschedule2`) and `schedule_rescue_query` (`rescueOf` + `schedule2`).  **Open** (translated and
+differentially self-tested, equation not yet proved): `_process_ready_types` (`fireReady2`), and hence no equation between whole runs
+(`exec2`) and sequences of translated calls: the theorems of this file about runs remain theorems about the hand-written `step2`,
+whose blocks — all but one — are the translated bodies by the lemmas below. -/
+section Tie
+open Zc.Py Zc.Sched2 Zc.GenFn.Sched Zc.GenFacts.FnSched
+
+/-- the heap order of the translated `_ScheduledPTRQuery.__lt__` is `when_millis` alone (what `insert2` assumes) -/
+theorem C10_heap_order_source (a b : ScheduledPTRQuery) :
+    a.lt b = decide (a.when_millis < b.when_millis) ∧ a.le b = decide (a.when_millis ≤ b.when_millis)
+    ∧ a.eq b = decide (a.when_millis = b.when_millis) ∧ a.ge b = decide (a.when_millis ≥ b.when_millis)
+    ∧ a.gt b = decide (a.when_millis > b.when_millis) :=
+  ⟨lt_eq a b, le_eq a b, eq_eq a b, ge_eq a b, gt_eq a b⟩
+
+/-- **Start-up for the translated code**: the translated `start` arms the start-up callback `d` ms ahead (`d` the `randint` draw over
+the configured interval), and every translated `_process_startup_queries` does what `fireStartup2` does: same counter, same
+`async_send_ready_queries` call, same timer armed next (1 s, 4 s, 9 s, then the refresh timer one `delay` ahead). -/
+theorem C10_startup_source {c : Cfg} {s : QueryScheduler} {m : S2} (h : Rel c s m) (hl : s.loop.isSome) (hst : s.next_run.isSome)
+    (done : Bool) (now : Int) :
+    ∃ s' eff, s.process_startup_queries done now = .ok (s', eff)
+      ∧ armedAfter now none eff = (fireStartup2 c m now done).1.armed
+      ∧ sendsOf c eff = (fireStartup2 c m now done).2 := by
+  obtain ⟨s', eff, h1, _, _, h2, h3⟩ := process_startup_queries_eq h hl hst done now
+  exact ⟨s', eff, h1, h2, h3⟩
+
+/-- **Scheduling a query in the translated code** (constructor call + `_schedule_ptr_query`) is the model's `schedule2`: the heap
+with the new object inserted in `when` order, the per-alias dict overwritten, and the wake-up re-armed (`cancel` + `call_at`) exactly
+when the model re-arms, for the same instant. -/
+theorem C10_schedule_source {c : Cfg} {s : QueryScheduler} {m : S2} (h : Rel c s m) (hok : StoreOk s) (hl : s.loop.isSome)
+    (o : ScheduledPTRQuery) (now : Int) :
+    ∃ s' eff, QueryScheduler.schedule_ptr_query { s with store := (PyStore.alloc s.store o).2 } (PyStore.alloc s.store o).1 = .ok (s', eff)
+      ∧ Rel c s' (schedule2 m (toQ o)) ∧ StoreOk s'
+      ∧ armedAfter now m.armed eff = (schedule2 m (toQ o)).armed :=  by
+  obtain ⟨s', eff, h1, h2, h3, _, h4, _⟩ := schedule_new_eq h hok hl o now
+  exact ⟨s', eff, h1, h2, h3, h4⟩
+
+/-- **Cancelling and re-scheduling in the translated code** are the model's `cancel2` / `reschedule2` (`a` = the pointer's lower-cased
+alias; `hdh`: the object the dict names is in the heap — in Python the dict holds the object itself). -/
+theorem C10_cancel_reschedule_source {c : Cfg} {s : QueryScheduler} {m : S2} (lower : String → String) (h : Rel c s m) (hok : StoreOk s)
+    (hl : s.loop.isSome) (p : Rec) (a : String) (ha : Rec.attrAliasKey lower p = .ok a) (now : Int)
+    (hdh : ∀ i, PyDict.get? strEq s.next_scheduled_for_alias a = some i → i ∈ s.query_heap) :
+    (∃ s', QueryScheduler.cancel_ptr_refresh lower s p = .ok s' ∧ Rel c s' (cancel2 m a) ∧ StoreOk s')
+    ∧ (∃ s' eff m', QueryScheduler.reschedule_ptr_first_refresh lower s p = .ok (s', eff)
+        ∧ reschedule2 c m a p.name p.ttl p.created = .ok m' ∧ Rel c s' m' ∧ StoreOk s'
+        ∧ armedAfter now m.armed eff = m'.armed) := by
+  obtain ⟨s1, h1, h2, h3, _⟩ := cancel_ptr_refresh_eq lower h hok p a ha
+  obtain ⟨s2, eff, m', g1, g2, g3, g4, _, g5, _⟩ := reschedule_ptr_first_refresh_eq lower h hok hl p a ha now hdh
+  exact ⟨⟨s1, h1, h2, h3⟩, ⟨s2, eff, m', g1, g2, g3, g4, g5⟩⟩
+
+/-- **The rescue query of the translated code** (10 % of the TTL after the refresh, dropped when that is at or past the expiry) is
+the model's `rescueOf` + `schedule2`. -/
+theorem C10_rescue_source {c : Cfg} {s : QueryScheduler} {m : S2} (h : Rel c s m) (hok : StoreOk s) (hl : s.loop.isSome)
+    (i : Nat) (o : ScheduledPTRQuery) (ho : PyStore.get? s.store i = some o) (hc : o.cancelled = false) (now clk : Int) :
+    ∃ s' eff, s.schedule_rescue_query i now 100 = .ok (s', eff)
+      ∧ Rel c s' (rescueStep now m (toQ o)) ∧ StoreOk s'
+      ∧ armedAfter clk m.armed eff = (rescueStep now m (toQ o)).armed := by
+  obtain ⟨s', eff, h1, h2, h3, _, h4, _⟩ := schedule_rescue_query_eq h hok hl i o ho hc now clk
+  exact ⟨s', eff, h1, h2, h3, h4⟩
+
+end Tie
 
 end Zc
